@@ -1,7 +1,14 @@
 #!/bin/bash
-# Applies each behaviour-preserving patch to a scratch copy and requires every check to stay silent.
+# Applies each behaviour-preserving patch to a scratch copy and requires every check (thorough tier, which includes
+# every configuration of the quick tier) to stay silent.  Prints one line per patch; exit 1 if any check fires.
 cd /verif
+rc=0
 for p in selftest/preserving/*.diff; do
-  echo "=== $p"
-  tools/trymut.py --build-check --patch $p C01 C02 C03 C04 C05 C06 C07 C08 C09 C10 C11 C12 C13 C14 C15 C16 C17 C18 2>&1 | grep -E "cargo check|rc=[12]|key|what" | cut -c1-260
+  out=$(tools/trymut.py --build-check --tier thorough --patch $p C01 C02 C03 C04 C05 C06 C07 C08 C09 C10 C11 C12 C13 C14 C15 C16 C17 C18 2>&1)
+  if echo "$out" | grep -q "cargo check --tests: ok" && ! echo "$out" | grep -qE "rc=[12]|PATCH FAILED"; then
+    echo "silent  $p"
+  else
+    echo "ALARM   $p"; echo "$out" | grep -E "cargo check|PATCH|rc=[12]|key|what" | cut -c1-260; rc=1
+  fi
 done
+exit $rc
